@@ -104,40 +104,43 @@ class SrtContext:
         LOGGER.debug("Removing empty paragraph.")
         self._paragraphs.pop()
 
-    if isinstance(element, model.Span):
-      is_bold = style.is_element_bold(element)
-      is_italic = style.is_element_italic(element)
-      is_underlined = style.is_element_underlined(element)
-      font_color = style.get_font_color(element)
-
-      if self._text_formatting:
-        if font_color is not None:
-          self._paragraphs[-1].append_text(style.FONT_COLOR_TAG_IN.format(font_color))
-        if is_bold:
-          self._paragraphs[-1].append_text(style.BOLD_TAG_IN)
-        if is_italic:
-          self._paragraphs[-1].append_text(style.ITALIC_TAG_IN)
-        if is_underlined:
-          self._paragraphs[-1].append_text(style.UNDERLINE_TAG_IN)
-
+    if isinstance(element, (model.Span, model.Ruby, model.Rbc, model.Rb)):
+      # ruby annotations (rt, rtc, rp) cannot be represented in SRT: only the ruby bases are written
       for elem in list(element):
         self.append_element(elem, begin, end)
-
-      if self._text_formatting:
-        if is_underlined:
-          self._paragraphs[-1].append_text(style.UNDERLINE_TAG_OUT)
-        if is_italic:
-          self._paragraphs[-1].append_text(style.ITALIC_TAG_OUT)
-        if is_bold:
-          self._paragraphs[-1].append_text(style.BOLD_TAG_OUT)
-        if font_color is not None:
-          self._paragraphs[-1].append_text(style.FONT_COLOR_TAG_OUT)
 
     if isinstance(element, model.Br):
       self._paragraphs[-1].append_text("\n")
 
     if isinstance(element, model.Text):
+      # the tags follow the computed style of the span that contains the text
+      span = element.parent()
+      is_bold = style.is_element_bold(span)
+      is_italic = style.is_element_italic(span)
+      is_underlined = style.is_element_underlined(span)
+      font_color = style.get_font_color(span)
+
+      if self._text_formatting:
+        if font_color is not None:
+          self._paragraphs[-1].append_markup(style.FONT_COLOR_TAG_IN.format(font_color))
+        if is_bold:
+          self._paragraphs[-1].append_markup(style.BOLD_TAG_IN)
+        if is_italic:
+          self._paragraphs[-1].append_markup(style.ITALIC_TAG_IN)
+        if is_underlined:
+          self._paragraphs[-1].append_markup(style.UNDERLINE_TAG_IN)
+
       self._paragraphs[-1].append_text(element.get_text())
+
+      if self._text_formatting:
+        if is_underlined:
+          self._paragraphs[-1].append_markup(style.UNDERLINE_TAG_OUT)
+        if is_italic:
+          self._paragraphs[-1].append_markup(style.ITALIC_TAG_OUT)
+        if is_bold:
+          self._paragraphs[-1].append_markup(style.BOLD_TAG_OUT)
+        if font_color is not None:
+          self._paragraphs[-1].append_markup(style.FONT_COLOR_TAG_OUT)
 
   def add_isd(self, isd, begin: Fraction, end: Optional[Fraction]):
     """Converts and appends ISD content to SRT content"""
